@@ -537,3 +537,23 @@ impl StandardLinearModel {
         self.to_string()
     }
 }
+
+/// Read accessors for the external verification harness (`--cfg rooc_verif`).
+#[cfg(rooc_verif)]
+impl StandardLinearModel {
+    pub fn verif_variables(&self) -> &Vec<String> {
+        &self.variables
+    }
+    pub fn verif_objective(&self) -> &Vec<f64> {
+        &self.objective
+    }
+    pub fn verif_constraints(&self) -> &Vec<EqualityConstraint> {
+        &self.constraints
+    }
+    pub fn verif_objective_offset(&self) -> f64 {
+        self.objective_offset
+    }
+    pub fn verif_flip_objective(&self) -> bool {
+        self.flip_objective
+    }
+}
